@@ -4158,6 +4158,88 @@ def spec_hidden_element_nothing(ctx, make_exe):
     return {"function": f.name, "paths": len(outs)}
 
 # ----------------------------------------------------------------------------
+# SPEC: the footnote list has one entry per recorded link, in order, numbered from 1 (TextDecorator::finalise, the
+# default used by the plain, rich and trivial decorators), and SubRenderer::finalise hands the decorator all the
+# links when footnotes are enabled and none otherwise.
+# ----------------------------------------------------------------------------
+
+def spec_finalise_entries(ctx, make_exe):
+    import summaries
+    orig = summaries.summarize
+    f = the(ctx.find(r"^TextDecorator::finalise$"), "TextDecorator::finalise (default method)")
+    total = 0
+    for n in (0, 1, 3, 4):
+        exe = make_exe(loop_bound=8, inline=[r"TextDecorator::finalise::\{closure"])
+        st = State()
+        urls = [VOpaque("String", "url%d" % k) for k in range(n)]
+        shown = []      # (kind, value) in call order
+
+        def summ(exe_, st_, f_, bb_, callee, args, dest_ty, shown=shown):
+            c = callee.strip()
+            m = re.search(r"Argument::<'_>::new_(\w+)::<(\w+)>$", c)
+            if m:
+                v = args[0]
+                while isinstance(v, VRef):
+                    v = exe_.deref(st_, v)
+                shown.append((m.group(1), m.group(2), v))
+                return [(st_, VOpaque("Argument", exe_.fresh_name("fmtarg")))]
+            if re.search(r"^Arguments::<'_>::new::<", c):
+                shown.append(("template", "", args[0]))
+                return [(st_, VOpaque("Arguments", exe_.fresh_name("fmtargs")))]
+            if re.search(r"String::is_empty$|str>::is_empty$", c):
+                return [(st_, exe_.fresh("bool", exe_.fresh_name("empty")))]
+            return orig(exe_, st_, f_, bb_, callee, args, dest_ty)
+        summaries.summarize = summ
+        try:
+            outs = exe.run(f.name, {1: VRef("val", VOpaque("Self", "dec")), 2: VVec(urls)}, st)
+        finally:
+            summaries.summarize = orig
+        if not outs:
+            raise Inconclusive("no path returned")
+        if len(outs) != 1:
+            # the order of `shown` is only meaningful on a single path
+            post(exe, outs[0][0], z3.BoolVal(False), f.name, "the footnote list depends on something other than the order of the links (%d paths)" % len(outs))
+            total += len(outs)
+            continue
+        total += 1
+        (s2, ret) = outs[0]
+        post(exe, s2, z3.BoolVal(isinstance(ret, VVec) and len(ret.elems) == n), f.name,
+             "%d links give %d footnote lines (got %s)" % (n, n, len(ret.elems) if isinstance(ret, VVec) else "?"))
+        per = [shown[i:i + 3] for i in range(0, len(shown), 3)]
+        ok_shape = len(per) == n and all(len(p) == 3 and p[0][:2] == ("display", "usize") and p[1][:2] == ("display", "String") and p[2][0] == "template" for p in per)
+        post(exe, s2, z3.BoolVal(bool(ok_shape)), f.name, "every footnote line is formatted from a number and a target")
+        if ok_shape:
+            for k, p_ in enumerate(per):
+                num, tgt, tmpl = p_[0][2], p_[1][2], p_[2][2]
+                post(exe, s2, num.e == u64(k + 1) if isinstance(num, VInt) else z3.BoolVal(False), f.name, "footnote line %d carries the number %d" % (k + 1, k + 1))
+                post(exe, s2, z3.BoolVal(tgt is urls[k]), f.name, "footnote line %d shows the target of link %d" % (k + 1, k + 1))
+                post(exe, s2, z3.BoolVal(getattr(tmpl, "name", "") == 'const:b"\\x01[\\xc0\\x03]: \\xc0\\x00"'), f.name,
+                     "a footnote line reads `[number]: target` (template %s)" % getattr(tmpl, "name", "?"))
+    # the wrapper: all links when footnotes are enabled, none otherwise
+    g = the(ctx.find(r"text_renderer::<impl at [^>]*>::finalise$"), "SubRenderer::finalise")
+    exe = make_exe(loop_bound=4)
+    st = State()
+    on = exe.fresh("bool", "include_link_footnotes")
+    opts = _agg(ctx, "RenderOptions", include_link_footnotes=on)
+    sub = _agg(ctx, "SubRenderer", options=opts)
+    links = VVec([VOpaque("String", "link0"), VOpaque("String", "link1")])
+    outs = exe.run(g.name, {1: VRef("val", sub), 2: links}, st)
+    if not outs:
+        raise Inconclusive("SubRenderer::finalise: no path returned")
+    for (s2, ret) in outs:
+        calls = [c for c in s2.calls if c[2] == g.name and re.search(r"TextDecorator>::finalise$", c[0])]
+        post(exe, s2, z3.BoolVal(len(calls) == 1), g.name, "the decorator's finalise is called exactly once")
+        if len(calls) == 1:
+            arg = calls[0][1][1]
+            full = arg is links or (isinstance(arg, VVec) and [getattr(e, "name", None) for e in arg.elems] == ["link0", "link1"])
+            empty = isinstance(arg, VVec) and len(arg.elems) == 0 and arg is not links
+            if not (full or empty):
+                raise Inconclusive("argument of the decorator's finalise not recovered: %r" % (arg,))
+            post(exe, s2, on.e if full else z3.Not(on.e), g.name, "the decorator gets every link when footnotes are enabled and none otherwise")
+    total += len(outs)
+    return {"function": f.name, "paths": total}
+
+# ----------------------------------------------------------------------------
 # SPEC: the dispatch of process_dom_node on the element's name.  The name is a *symbolic* pair of atoms (namespace,
 # local name); string_cache packs a name of at most 7 bytes into the atom's u64 itself (tag 1, length, bytes), so
 # the expected table below can be stated on the packed values without trusting anything in the tree under check.
@@ -5047,6 +5129,11 @@ ALL = [
          bounds="every sequence of 4 (thorough: 5) tokens over {identifier, ( ) [ ] { } ;}, then end of input",
          assumptions=["parse_token delivers the scripted tokens; derived PartialEq on Token compares discriminants for bracket tokens"],
          replay=lambda fd, vals, info: {"harness": "m_at_rule_skip", "values": [[0]]}),
+    Spec("finalise_entries", ["C08"], spec_finalise_entries,
+         functions=["TextDecorator::finalise (default method) and its closure", "SubRenderer::finalise"],
+         bounds="0, 1, 3 and 4 recorded links with opaque targets (arbitrary strings, possibly empty or equal); footnote option symbolic",
+         assumptions=["format! is observed through its arguments and template (core::fmt is not executed); TaggedLine::from_string keeps the string"],
+         replay=lambda fd, vals, info: {"harness": "m_footnote_list", "values": [[0]]}),
     Spec("element_dispatch", ["C03", "C13"], spec_element_dispatch,
          functions=["process_dom_node (Element arm: the match on the expanded name, up to the constructor it selects)",
                     "process_dom_node::{closure#k} (the variant each constructor closure builds)"],
